@@ -350,7 +350,7 @@ Section Visit.
     let! p := lift (position e c) in
     let! s := get_st in
     ret (DError (mkcommon n (s_ns s) p (comment_of c)) codes
-                (flat_map (fun ec => map (fun pa => tref_name (param_ty pa)) (ec_params ec)) codes)).
+                (dependencies DEPTH (flat_map (fun ec => map param_ty (ec_params ec)) codes))).
 
   Definition visit_named_function (c : cst) : M decl :=
     let! fc := lift (deref "visit(None): ctx.function()" (rule1 "function" c)) in
